@@ -185,8 +185,26 @@ def SNodeE.wf (n : SNodeE) : Prop :=
 
 instance SNodeE.decWf (n : SNodeE) : Decidable n.wf := by unfold SNodeE.wf; exact inferInstance
 
+/-- ids of all entries (live and deleted) in stored order, as (ms, seq) -/
+def StreamE.ids (s : StreamE) : List (Int × Int) :=
+  s.nodes.flatMap (fun n => n.entries.map (fun e =>
+    -- (the stored deltas are 64-bit: master + delta wraps modulo 2^64, as in t_stream.c)
+    (((n.masterMs : Int) + e.msDelta.int?.getD 0) % (2 ^ 64 : Nat),
+     ((n.masterSeq : Int) + e.seqDelta.int?.getD 0) % (2 ^ 64 : Nat))))
+
+def idLess (a b : Int × Int) : Bool := a.1 < b.1 || (a.1 == b.1 && a.2 < b.2)
+
+def strictlyIncreasing : List (Int × Int) → Bool
+  | a :: b :: r => idLess a b && strictlyIncreasing (b :: r)
+  | _ => true
+
+/-- what Redis guarantees of the ids: above 0-0, strictly increasing, none above the last id -/
+def StreamE.idsOrdered (s : StreamE) : Bool :=
+  strictlyIncreasing ((0, 0) :: s.ids) &&
+    s.ids.all (fun i => !idLess ((s.lastMs : Int), (s.lastSeq : Int)) i)
+
 def StreamE.wf (s : StreamE) : Prop :=
-  1 ≤ s.ver ∧ s.ver ≤ 4 ∧ (∀ n ∈ s.nodes, n.wf) ∧
+  s.idsOrdered = true ∧ 1 ≤ s.ver ∧ s.ver ≤ 4 ∧ (∀ n ∈ s.nodes, n.wf) ∧
   s.length < 2 ^ 64 ∧ s.lastMs < 2 ^ 64 ∧ s.lastSeq < 2 ^ 64 ∧ s.firstMs < 2 ^ 64 ∧ s.firstSeq < 2 ^ 64 ∧
   s.maxDelMs < 2 ^ 64 ∧ s.maxDelSeq < 2 ^ 64 ∧ s.entriesAdded < 2 ^ 64 ∧
   (∀ g ∈ s.groups, g.name.wf ∧ g.lastMs < 2 ^ 64 ∧ g.lastSeq < 2 ^ 64 ∧ g.entriesRead < 2 ^ 64 ∧
